@@ -329,7 +329,7 @@ Print Assumptions C15_euler_is_components_minus_holes_reducible.
    single pixels, any number of objects and holes (below);  (c) every image reducible by the four moves
    (C15_euler_is_components_minus_holes_reducible), membership certified per case by the verified search
    (thorough tier: 46 205 of 46 205 (image, label) pairs).  Finite: all images up to 3x3 over {0,1,2}, all
-   binary images up to 3x4 / 2x5 (in the build) and 4x4 (Proofs/EulerCover44C15.v, on demand).
+   binary images up to 3x4 / 2x5 (in the build) and 4x4 (coq/optional/EulerCover44C15.v, on demand).
    NOT proved: reducibility of every image with a hole of two or more pixels.  Needed is the DUAL end-pixel
    lemma - every finite 4-connected background component H, |H| >= 2, without an enclosed object has a pixel
    whose filling is simple (an end pixel of H for (4,8)-adjacency) - plus an induction over the nesting of
